@@ -94,6 +94,55 @@ CLAIMED = {
         "note": "Trusted: projection (strip root spelling, split on os.sep, exact byte lookup in the case's name table). Exhaustive over the enumerated universes (state count cross-checked between TLC and the Python enumeration).",
         "technique": 'TLA+ model checking (TLC) over all trees x pairs + law monitors (TLC) over outputs of the real generators',
     },
+    "C01": {
+        "engine": "pipeline",
+        "design_ref": "DESIGN.md §4.1, §4.2, §7 C01",
+        "text": 'Paced operation histories are generated by TLC from FsKernel.tla/FsGen.tla (inode-centric VFS + inotify model with the pacing condition as a predicate on the driver); every history runs on the real InotifyObserver against the real kernel under the deterministic scheduler with several relative timings and read splits, recursive and non-recursive, str and bytes roots; TLC replays the delivered created/deleted/moved events onto the start tree inside PipelineTrace.tla (total Apply function of DESIGN §7) and compares with the real tree at every drain point (P_C01_ReplicaMatches).',
+        "note": "Trusted: detsched shims; the OS seam only adds control (read splits, yield points) to the REAL kernel; the driver's own record of the tree (verified against os.walk at the end of every scenario); pacing condition as FsKernel.PacingOK (DESIGN §7). Bounded: exhaustive over TLC histories of <=2 (quick) / <=3 (thorough) operations from 3 start trees over names {a,b}; timings library-first / driver-first / random / PCT with random read splits; random histories of 12-60 operations beyond. No queue overflow, no links.",
+        "technique": 'TLA+ model checking (TLC) of the kernel/pacing model for history generation + trace validation (TLC) of real executions on the real kernel under a deterministic scheduler',
+    },
+    "C02": {
+        "engine": "pipeline",
+        "design_ref": "DESIGN.md §7 C02",
+        "text": "Same histories/timings as C01, restricted to directory-shaping ones, with probe rounds (one probe file in every directory of the real tree, mid-history and at the end): PipelineTrace.tla requires a FileCreated callback with exactly the probe's real path before the next drain point (P_C02_ProbeReported) and silence below the root's direct children for non-recursive watches (P_C02_NonRecursiveSilentBelow).",
+        "note": "Trusted: detsched shims; the OS seam only adds control (read splits, yield points) to the REAL kernel; the driver's own record of the tree (verified against os.walk at the end of every scenario); pacing condition as FsKernel.PacingOK (DESIGN §7). Bounded: exhaustive over TLC histories of <=2 (quick) / <=3 (thorough) operations from 3 start trees over names {a,b}; timings library-first / driver-first / random / PCT with random read splits; random histories of 12-60 operations beyond. No queue overflow, no links.",
+        "technique": 'TLA+ model checking (TLC) of the kernel/pacing model for history generation + trace validation (TLC) of real executions on the real kernel under a deterministic scheduler',
+    },
+    "C03": {
+        "engine": "pipeline",
+        "design_ref": "DESIGN.md §7 C03",
+        "text": "Soundness: every callback of every execution must be justified (PipelineTrace.tla: Justified over facts derived from the harness's own record of each operation: entry kind, descendants that travel with it; flavour, moved endpoints, synthetic only for descendants of a moved / arrived directory). Completeness: every TLC history is also run one operation at a time and each window is compared with Contract(op), written from the property text and inotify(7): nothing missing, nothing added, top events exactly once; recursive/non-recursive x normal/full emitter. One recorded known finding (D7: a moved-out directory keeps its kernel watch) is matched by its own deviation clause.",
+        "note": "Trusted: detsched shims; the OS seam only adds control (read splits, yield points) to the REAL kernel; the driver's own record of the tree (verified against os.walk at the end of every scenario); pacing condition as FsKernel.PacingOK (DESIGN §7). Bounded: exhaustive over TLC histories of <=2 (quick) / <=3 (thorough) operations from 3 start trees over names {a,b}; timings library-first / driver-first / random / PCT with random read splits; random histories of 12-60 operations beyond. No queue overflow, no links.",
+        "technique": 'TLA+ model checking (TLC) of the kernel/pacing model for history generation + trace validation (TLC) of real executions on the real kernel under a deterministic scheduler',
+    },
+    "C07": {
+        "engine": "pipeline",
+        "design_ref": "DESIGN.md §7 C07",
+        "text": 'Families: unpaced random histories (no library thread may die), entries that left the tree / re-used names followed by probe rounds, deletion of the watched root (exactly one DirDeleted(root), emitter stops), transient inotify_add_watch failures at every call position of short histories, stop() racing with the emitter (random + PCT schedules). Uncaught exceptions in library threads, thread exits and the final probe are trace lines judged by PipelineTrace.tla (P_C07_*).',
+        "note": "Trusted: detsched shims; the OS seam only adds control (read splits, yield points) to the REAL kernel; the driver's own record of the tree (verified against os.walk at the end of every scenario); pacing condition as FsKernel.PacingOK (DESIGN §7). Bounded: exhaustive over TLC histories of <=2 (quick) / <=3 (thorough) operations from 3 start trees over names {a,b}; timings library-first / driver-first / random / PCT with random read splits; random histories of 12-60 operations beyond. No queue overflow, no links.",
+        "technique": 'TLA+ model checking (TLC) of the kernel/pacing model for history generation + trace validation (TLC) of real executions on the real kernel under a deterministic scheduler',
+    },
+    "C11": {
+        "engine": "pipeline",
+        "design_ref": "DESIGN.md §7 C11",
+        "text": "Two watches on the same real root, one filtered and one not, driven one operation at a time through a tour of the whole vocabulary, TLC histories and random histories; filters: every concrete class, both base classes, pairs; recursive/non-recursive, normal/full. PipelineTrace.tla compares the run-collapsed filtered sequence with the unfiltered one restricted to the filter's classes, base classes included (P_C11_FilterOnlyRemoves).",
+        "note": "Trusted: detsched shims; the OS seam only adds control (read splits, yield points) to the REAL kernel; the driver's own record of the tree (verified against os.walk at the end of every scenario); pacing condition as FsKernel.PacingOK (DESIGN §7). Bounded: exhaustive over TLC histories of <=2 (quick) / <=3 (thorough) operations from 3 start trees over names {a,b}; timings library-first / driver-first / random / PCT with random read splits; random histories of 12-60 operations beyond. No queue overflow, no links.",
+        "technique": 'TLA+ model checking (TLC) of the kernel/pacing model for history generation + trace validation (TLC) of real executions on the real kernel under a deterministic scheduler',
+    },
+    "C19": {
+        "engine": "pipeline",
+        "design_ref": "DESIGN.md §7 C19",
+        "text": "Seven root spellings (str, bytes, pathlib.Path, trailing slash str/bytes, relative str/bytes) x inotify / polling observer x names with non-ASCII and undecodable bytes over the whole vocabulary, TLC histories and random histories; the harness projects every event path byte-exactly against the name table ('?' on mismatch) and PipelineTrace.tla requires the watch's type tag and no '?' for source, destination, synthetic and parent-modified events (P_C19_TypePreserved, P_C19_ExactName).",
+        "note": "Trusted: detsched shims; the OS seam only adds control (read splits, yield points) to the REAL kernel; the driver's own record of the tree (verified against os.walk at the end of every scenario); pacing condition as FsKernel.PacingOK (DESIGN §7). Bounded: exhaustive over TLC histories of <=2 (quick) / <=3 (thorough) operations from 3 start trees over names {a,b}; timings library-first / driver-first / random / PCT with random read splits; random histories of 12-60 operations beyond. No queue overflow, no links. The byte-level comparison lives in the harness projection; TLA+ sees name ids.",
+        "technique": 'TLA+ model checking (TLC) of the kernel/pacing model for history generation + trace validation (TLC) of real executions on the real kernel under a deterministic scheduler',
+    },
+    "C15": {
+        "engine": "function",
+        "design_ref": "DESIGN.md §4.5, §7 C15",
+        "text": "Handlers.tla states the dispatch rules (base: on_any_event then exactly the one on_<type>; pattern rule and regex rule over an uninterpreted match relation, include/exclude lists of size 0..3, case_sensitive, ignore_directories, one- and two-path events); TLC enumerates every Boolean match matrix: its reachable set is the decision table (18,211 rows), and the old behaviour (empty dest_path matched as a path) switched back on must be refuted. Concrete events x pattern/regex lists x flags are run through the real handlers with recording subclasses; the match matrix is computed by an independent reference (pathlib PurePosixPath/PureWindowsPath.match, re.match) and every case line is validated by TLC against HandlersTrace.tla (P_C15_AnyThenTyped, P_C15_PatternDecision, P_C15_RegexDecision, filter_paths sub-sequence / agreement with pathlib / conflict rejection).",
+        "note": "Trusted: pathlib and re as the reference for one path vs one pattern; 'its paths' = the non-empty ones of src_path/dest_path. Bounded: alphabet of ~10 paths with case variants, ~20 pattern lists, ~15 regex lists.",
+        "technique": "TLA+ model checking (TLC) decision table + law monitors (TLC) over outputs of the real handlers",
+    },
 }
 
 NOT_YET = "check not built yet (in progress, see DESIGN.md §12)"
